@@ -1,70 +1,233 @@
+// journaldrv binds spec/Journal.tla to the real journaled state of go-quai (C12).
+//
+//	journaldrv replay -level journal|evm -universe U -in behaviours.ndjson -out result.json [-trace t.ndjson -tracemod K]
+//	    Every behaviour (JSON array of the spec's hist records: call, specified result, specified visible
+//	    state) is executed on the real code - level journal: state.StateDB mutators, Snapshot,
+//	    RevertToSnapshot; level evm: compiled to bytecode and run by vm.EVM.Call - and after every step
+//	    the projection of the real state is compared (a) with the spec's state, (b) at every revert with
+//	    the projection captured when the snapshot was taken / before the frame was entered.
+//	journaldrv random -seed S -n N -len L -depth D -out trace.ndjson
+//	    seeded long random call sequences on a real StateDB over a larger universe, one event per call
+//	    with the observed state, for validation by spec/JournalTrace.tla.
+//	journaldrv scenario -out report.json
+//	    the minimal programs behind the known findings, with the concrete values observed.
 package main
 
 import (
+	"bufio"
+	"encoding/json"
+	"flag"
 	"fmt"
 	"io"
-	"math/big"
-	"time"
+	"math/rand"
+	"os"
+	"sort"
+	"sync"
 
-	"github.com/dominant-strategies/go-quai/common"
-	"github.com/dominant-strategies/go-quai/core/rawdb"
-	"github.com/dominant-strategies/go-quai/core/state"
+	"github.com/dominant-strategies/go-quai/core/vm"
 	"github.com/dominant-strategies/go-quai/log"
 )
 
-func main() {
-	log.Global.SetOutput(io.Discard)
-	loc := common.Location{0, 0}
-	mk := func(b byte) common.InternalAddress {
-		bs := make([]byte, 20)
-		bs[1] = 0x10
-		bs[19] = b
-		ia, err := common.BytesToAddress(bs, loc).InternalAndQuaiAddress()
-		if err != nil {
-			panic(err)
+func must(err error) {
+	if err != nil {
+		fmt.Fprintln(os.Stderr, "journaldrv fatal:", err)
+		os.Exit(3)
+	}
+}
+
+func readBehaviours(path string) [][]Step {
+	f, err := os.Open(path)
+	must(err)
+	defer f.Close()
+	sc := bufio.NewScanner(f)
+	sc.Buffer(make([]byte, 1<<20), 1<<28)
+	var out [][]Step
+	for sc.Scan() {
+		if len(sc.Bytes()) == 0 {
+			continue
 		}
-		return ia
+		var b []Step
+		if err := json.Unmarshal(sc.Bytes(), &b); err != nil {
+			must(fmt.Errorf("behaviour %d: %v", len(out), err))
+		}
+		out = append(out, b)
 	}
-	db := state.NewDatabase(rawdb.NewMemoryDatabase(log.Global))
-	edb := state.NewDatabase(rawdb.NewMemoryDatabase(log.Global))
-	s, err := state.New(common.Hash{}, common.Hash{}, new(big.Int), db, edb, nil, loc, log.Global)
-	if err != nil {
-		panic(err)
+	must(sc.Err())
+	return out
+}
+
+func sigOf(f *Finding) string { return f.Level + "|" + f.Kind + "|" + f.Diff + "|" + f.Cause }
+
+func cmdReplay(args []string) {
+	fs := flag.NewFlagSet("replay", flag.ExitOnError)
+	level := fs.String("level", "journal", "journal|evm")
+	uni := fs.String("universe", "j1", "")
+	in := fs.String("in", "", "")
+	out := fs.String("out", "", "")
+	trace := fs.String("trace", "", "write implementation traces (ndjson)")
+	tracemod := fs.Int("tracemod", 1, "log every K-th behaviour only")
+	maxfind := fs.Int("maxfind", 3, "findings kept per signature")
+	workers := fs.Int("workers", 8, "")
+	fs.Parse(args)
+	u := universes()[*uni]
+	if u == nil {
+		must(fmt.Errorf("unknown universe %s", *uni))
 	}
-	a1, a2 := mk(1), mk(2)
-	s.SetBalance(a1, big.NewInt(5))
-	s.SetCode(a1, []byte{0})
-	s.SetNonce(a1, 1)
-	s.SetState(a1, common.BigToHash(big.NewInt(1)), common.BigToHash(big.NewInt(1)))
-	s.SetBalance(a2, big.NewInt(3))
-	root, err := s.Commit(true)
-	fmt.Println("root", root, err, "size", s.GetQuaiTrieSize())
-	if err := db.TrieDB().Commit(root, false, nil); err != nil {
-		fmt.Println("triedb commit", err)
+	w := buildWorld(u)
+	behs := readBehaviours(*in)
+	type result struct {
+		fs     []Finding
+		events []map[string]interface{}
+		nrev   int
+		err    error
 	}
-	s2, err := state.New(root, common.Hash{}, s.GetQuaiTrieSize(), db, edb, nil, loc, log.Global)
-	if err != nil {
-		panic(err)
+	results := make([]result, len(behs))
+	var wg sync.WaitGroup
+	ch := make(chan int, 1024)
+	for k := 0; k < *workers; k++ {
+		wg.Add(1)
+		go func() {
+			defer wg.Done()
+			for bi := range ch {
+				want := *trace != "" && bi%*tracemod == 0
+				var r result
+				if *level == "evm" {
+					r.fs, r.events, r.nrev, r.err = runEvm(w, bi, behs[bi], want)
+				} else {
+					r.fs, r.events, r.nrev = runJournal(w, bi, behs[bi], want)
+				}
+				results[bi] = r
+			}
+		}()
 	}
-	fmt.Println("a1 size", s2.GetSize(a1), "bal", s2.GetBalance(a1), "st", s2.GetState(a1, common.BigToHash(big.NewInt(1))))
-	id := s2.Snapshot()
-	r0 := s2.Copy().IntermediateRoot(true)
-	s2.Suicide(a1)
-	s2.RevertToSnapshot(id)
-	fmt.Println("after revert: a1 size", s2.GetSize(a1), "bal", s2.GetBalance(a1), "suicided", s2.HasSuicided(a1))
-	r1 := s2.Copy().IntermediateRoot(true)
-	fmt.Println("roots equal", r0 == r1, r0, r1)
-	t := time.Now()
-	for i := 0; i < 1000; i++ {
-		c := s2.Copy()
-		c.IntermediateRoot(true)
+	for bi := range behs {
+		ch <- bi
 	}
-	fmt.Println("copy+root", time.Since(t)/1000)
-	// negative size?
-	s2.SetState(a1, common.BigToHash(big.NewInt(1)), common.Hash{})
-	func() {
-		defer func() { fmt.Println("recover:", recover()) }()
-		c := s2.Copy()
-		fmt.Println("root after clearing slot", c.IntermediateRoot(true), "size", c.GetSize(a1))
-	}()
+	close(ch)
+	wg.Wait()
+	sigCount := map[string]int{}
+	kept := map[string]int{}
+	var findings []Finding
+	deviations := [][]interface{}{}
+	ops := map[string]int{}
+	steps, nrev, clean, broken := 0, 0, 0, []string{}
+	var tw *bufio.Writer
+	if *trace != "" {
+		f, err := os.Create(*trace)
+		must(err)
+		defer f.Close()
+		tw = bufio.NewWriter(f)
+		defer tw.Flush()
+	}
+	ntr := 0
+	for bi, r := range results {
+		if r.err != nil {
+			if len(broken) < 5 {
+				broken = append(broken, fmt.Sprintf("behaviour %d: %v", bi, r.err))
+			}
+			continue
+		}
+		for _, st := range behs[bi] {
+			ops[st.Op]++
+		}
+		steps += len(behs[bi])
+		nrev += r.nrev
+		if len(r.fs) == 0 {
+			clean++
+		}
+		for i := range r.fs {
+			s := sigOf(&r.fs[i])
+			sigCount[s]++
+			deviations = append(deviations, []interface{}{bi, r.fs[i].StepIdx, s})
+			if kept[s] < *maxfind {
+				kept[s]++
+				findings = append(findings, r.fs[i])
+			}
+		}
+		if tw != nil && len(r.events) > 0 {
+			writeTrace(tw, u.Name, bi, r.events)
+			ntr++
+		}
+	}
+	// shortest reproductions first
+	sort.SliceStable(findings, func(i, j int) bool { return len(findings[i].Steps) < len(findings[j].Steps) })
+	res := map[string]interface{}{"level": *level, "universe": u.Name, "behaviours": len(behs), "clean": clean, "steps": steps,
+		"reverts_judged": nrev, "signatures": sigCount, "findings": findings, "deviations": deviations, "ops": ops, "broken": broken, "traces": ntr}
+	b, _ := json.MarshalIndent(res, "", " ")
+	must(os.WriteFile(*out, b, 0o644))
+}
+
+func writeTrace(tw *bufio.Writer, uni string, n int, events []map[string]interface{}) {
+	enc := json.NewEncoder(tw)
+	enc.Encode(map[string]interface{}{"op": "tracereset", "a": 0, "s": 0, "v": 0, "id": 0, "res": []interface{}{"init"}, "u": uni, "trace": n,
+		"vis": (&Proj{}).flat(&Universe{}), "dg": "", "lvl": "", "pre": ""})
+	for _, ev := range events {
+		ev["trace"] = n
+		if _, ok := ev["pre"]; !ok {
+			ev["pre"] = ""
+		}
+		enc.Encode(ev)
+	}
+}
+
+func cmdRandom(args []string) {
+	fs := flag.NewFlagSet("random", flag.ExitOnError)
+	seed := fs.Int64("seed", 1, "")
+	n := fs.Int("n", 20, "traces")
+	ln := fs.Int("len", 300, "calls per trace")
+	depth := fs.Int("depth", 5, "max live snapshots")
+	out := fs.String("out", "", "")
+	res := fs.String("res", "", "result json (findings of the snapshot/revert oracle)")
+	fs.Parse(args)
+	u := universes()["jt"]
+	w := buildWorld(u)
+	rnd := rand.New(rand.NewSource(*seed))
+	f, err := os.Create(*out)
+	must(err)
+	defer f.Close()
+	tw := bufio.NewWriter(f)
+	defer tw.Flush()
+	total, nrev := 0, 0
+	sigCount := map[string]int{}
+	var findings []Finding
+	deviations := [][]interface{}{}
+	for t := 0; t < *n; t++ {
+		steps := genJournalTrace(w, rnd, *ln, *depth, t%2 == 0)
+		fsx, events, nr := runJournal(w, t, steps, true)
+		nrev += nr
+		total += len(events)
+		for i := range fsx {
+			s := sigOf(&fsx[i])
+			deviations = append(deviations, []interface{}{t, fsx[i].StepIdx, s})
+			if sigCount[s] == 0 {
+				findings = append(findings, fsx[i])
+			}
+			sigCount[s]++
+		}
+		writeTrace(tw, u.Name, t, events)
+	}
+	b, _ := json.MarshalIndent(map[string]interface{}{"traces": *n, "events": total, "reverts_judged": nrev, "signatures": sigCount, "findings": findings, "deviations": deviations}, "", " ")
+	if *res != "" {
+		must(os.WriteFile(*res, b, 0o644))
+	}
+	fmt.Printf("{\"traces\":%d,\"events\":%d,\"reverts_judged\":%d}\n", *n, total, nrev)
+}
+
+func main() {
+	if len(os.Args) < 2 {
+		fmt.Fprintln(os.Stderr, "usage: journaldrv replay|random|scenario ...")
+		os.Exit(2)
+	}
+	log.Global.SetOutput(io.Discard)
+	vm.InitializePrecompiles(loc)
+	switch os.Args[1] {
+	case "replay":
+		cmdReplay(os.Args[2:])
+	case "random":
+		cmdRandom(os.Args[2:])
+	case "scenario":
+		cmdScenario(os.Args[2:])
+	default:
+		os.Exit(2)
+	}
 }
